@@ -584,8 +584,36 @@ func (h *c16Hist) step(op *c16Op) (string, *c16Obs) {
 	return out, &post
 }
 
+// the name resolves to whoever the record names, under every spelling a caller may type (x/storage and
+// x/notifications resolve names typed by users), after every step — also after the name has changed hands
+func (h *c16Hist) resolvesToHolder(post *c16Obs) {
+	w := h.w
+	for i := range post.Names {
+		n := &post.Names[i]
+		holder, err := sdk.AccAddressFromBech32(n.Owner)
+		if err != nil || len(n.Idx) < 5 {
+			continue
+		}
+		ascii := true
+		for i := 0; i < len(n.Idx); i++ {
+			ascii = ascii && n.Idx[i] < 128
+		}
+		if !ascii {
+			continue // (case mapping of non-ASCII names is Go's Unicode business, not modelled)
+		}
+		for _, spelling := range []string{n.Idx, strings.ToUpper(n.Idx[:len(n.Idx)-4]) + n.Idx[len(n.Idx)-4:], strings.ToUpper(n.Idx[:1]) + n.Idx[1:]} {
+			got, rerr := w.e.App.RnsKeeper.Resolve(w.e.Ctx, spelling)
+			if rerr != nil || !got.Equals(holder) {
+				h.finding("C16/resolve/not-the-holder", fmt.Sprintf("%s is held by %s, Resolve(%q) answers %v %v", n.Idx, n.Owner, spelling, got, rerr))
+				return
+			}
+		}
+	}
+}
+
 // every name that was live before the step keeps its owner and its expiry does not move backwards
 func (h *c16Hist) liveNamesKept(pre, post *c16Obs, height int64, kind string) {
+	h.resolvesToHolder(post)
 	for i := range pre.Names {
 		pn := &pre.Names[i]
 		if height < pn.Expires {
